@@ -45,6 +45,10 @@ def run(ck):
         g = dict(g)
         g["calls"] = [pcall(a, "list", extra=False) for a in COVERS]
         groups.append(g)
+    for g in gen.gscale_families(ck.rng, 100 if q else 3000, cover=True):
+        g = dict(g); g.pop("fmts")
+        g["calls"] = [pcall(a, "list", extra=False) for a in COVERS]
+        groups.append(g); ck.cat("common_factor_1e8")
     ck.rule = ("TLC enumerates every arrival sequence of <=5 positive values (up to C+2) for C in {4,5,6,7,12}; decreasing, two-thirds and three-quarters executed "
                "on each; the number of covered bins judged against Oracles.MaxCover (subset DP in TLA+); seeded families <=12 items; the published worst-case "
                "families generalised in k (witness cover checked by TLC); planted exact covers up to 300 items (TLC-certified OPT = total/C). "
